@@ -662,6 +662,9 @@ class _FnWalker:
                 callee_fi = self.p.fns[callee]
                 rk = (rcls.rel, rcls.name) if rcls is not None and callee_fi.cls is not None else None
                 self.sink.append((callee, rk, locked))
+                sites = getattr(self, "sink_sites", None)     # optional parallel list (vc.pyhistory): the AST node
+                if sites is not None:                         # of the call / reference that produced the edge
+                    sites.append(node)
                 return
             self.p.edges.setdefault(self.fi.key, []).append(Edge(callee, locked, getattr(node, "lineno", 0)))
 
